@@ -535,6 +535,11 @@ func runC12(r *report.Run) {
 	r.Set("traces_validated_against_impl", 2*total+2*tr+executed)
 	r.Set("evaluations", 2*total+2*tr+executed)
 	r.Set("distinct_nontrivial", nontriv+executed)
+	for i, cs := range cpuSampled {
+		if i%8 == 0 {
+			r.Sample(cs)
+		}
+	}
 	r.Set("rule", "Step part: every case of the five sweeps (E, pending interrupts, Stopped before/after) on both interpreters: cycles >= 1, AllCycles grows by exactly the reported count, stop status as specified, OnWDM receives exactly the operand (all 256); sequences: the same along every program of the search incl. steps after STP and Reset. RunUntil part: every program up to depth 3 over a 16-instruction alphabet (loops, STP, block move, calls) x 2 placements x every instruction boundary / inside-operand / unreachable target x the budget alphabet on a real emulator.System, compared with a twin System stepped by hand (final CPU state, memory, result) with program-counter callbacks on every program byte (exactly once per fetch, pre-instruction state) that double as a non-termination guard")
 	r.Sample(c12Run{Prog: []string{"LDA #$1234", "BRA -2"}, Start: 0x7E2000, Target: 0x7E2003, Budget: 13})
 	r.Sample(c12Run{Prog: []string{"STP", "NOP"}, Start: 0x008000, Target: 0x008001, Budget: 50})
